@@ -330,3 +330,69 @@ func ruleZeroPadAfterSign(w *World, r *RuleResult) {
 		r.ok("(*Decimal).Format | zero padding after the sign", w.pos(f.Pos()), "no write of a \"0\" padding found: this shape is not decided", false)
 	}
 }
+
+func init() {
+	register(&Rule{ID: "C14.R9", Min: 1,
+		Text: "the '-' flag overrides the '0' flag, as in fmt: every write of a padding text that can be \"0\" is reached only on paths where s.Flag('-') was tested and is false",
+		Run:  ruleMinusOverridesZero})
+}
+
+func ruleMinusOverridesZero(w *World, r *RuleResult) {
+	f := w.fn("(*Decimal).Format")
+	if f == nil {
+		r.anchorMissing("(*Decimal).Format")
+		return
+	}
+	isFlag := func(v ssa.Value, ch int64) bool {
+		c, ok := v.(*ssa.Call)
+		if !ok || !c.Common().IsInvoke() || c.Common().Method.Name() != "Flag" || len(c.Common().Args) != 1 {
+			return false
+		}
+		k, isK := c.Common().Args[0].(*ssa.Const)
+		return isK && ci(k) == ch
+	}
+	mayBeZero := func(v ssa.Value) bool {
+		switch x := v.(type) {
+		case *ssa.Const:
+			s, ok := strConst(x)
+			return ok && s == "0"
+		case *ssa.Phi:
+			for _, e := range x.Edges {
+				if k, ok := e.(*ssa.Const); ok {
+					if s, ok := strConst(k); ok && s == "0" {
+						return true
+					}
+				}
+			}
+		}
+		return false
+	}
+	n := 0
+	for _, c := range w.callsTo(f, "writeMultiple") {
+		if len(c.Common().Args) != 3 || !mayBeZero(c.Common().Args[1]) {
+			continue
+		}
+		if k, isK := c.Common().Args[2].(*ssa.Const); isK && ci(k) == 1 {
+			continue
+		}
+		n++
+		key := "(*Decimal).Format | '-' overrides '0'"
+		if n > 1 {
+			key = fmt.Sprintf("%s #%d", key, n)
+		}
+		ok := false
+		for _, g := range guardsAt(c.Block()) {
+			if isFlag(g.Cond, '-') && !g.Val {
+				ok = true
+			}
+		}
+		if ok {
+			r.ok(key, w.instrPos(c), "zero padding is written only where Flag('-') is false", true)
+		} else {
+			r.bad(key, w.instrPos(c), "zero padding can be written although the '-' flag is set: fmt ignores '0' when '-' is given (%-010G of 1.23E+56 must be \"1.23E+56  \", not \"001.23E+56\")")
+		}
+	}
+	if n == 0 {
+		r.ok("(*Decimal).Format | '-' overrides '0'", w.pos(f.Pos()), "no write of a \"0\" padding found: this shape is not decided", false)
+	}
+}
